@@ -69,7 +69,7 @@ def main():
     for k in range(n):
         os.makedirs('%s/%d' % (SCR, k))
         r = sh('git clone -q /repo %s/%d/repo' % (SCR, k)); assert r.returncode == 0, r.stderr
-        r = sh('rsync -a --exclude .git --exclude seeded --exclude work/replays --exclude 'work/C[0-9][0-9]' %s/ %s/%d/verif/' % (ROOT, SCR, k)); assert r.returncode in (0, 24), r.stderr
+        r = sh('rsync -a --exclude .git --exclude seeded --exclude work/replays --exclude "work/C[0-9][0-9]" %s/ %s/%d/verif/' % (ROOT, SCR, k)); assert r.returncode in (0, 24), r.stderr
     # interleave so that each worker gets a mix of properties (slow and fast ones)
     parts = [ids[k::n] for k in range(n)]
     procs = [subprocess.Popen(['unshare', '-m', sys.executable, os.path.abspath(__file__), '--worker', str(k), '1' if thorough_too else '0'] + parts[k]) for k in range(n)]
